@@ -645,7 +645,7 @@ ARGS_OF = {
     "sort": lambda r, g: r.choice([([], []), ([g()], [])]),
     "concat": lambda r, g: ([r.choice([P("l"), P("ls"), P("el"), g()])], []),
     "compact": lambda r, g: r.choice([([], []), ([], []), ([g()], [])]),
-    "uniq": lambda r, g: ([], []),
+    "uniq": lambda r, g: r.choice([([], []), ([], []), ([M], []), ([L(None)], []), ([P("d", "nope")], [])]),
     "sum": lambda r, g: r.choice([([], []), ([r.choice([L("a"), g()])], [])]),
     "slice": lambda r, g: r.choice([([g()], []), ([r.choice([L(0), L(1), L(-1), L(-2)]), r.choice([L(1), L(2), L(5), g()])], [])]),
     "split": lambda r, g: ([r.choice([L(","), L(""), L("b"), g()])], []),
@@ -772,7 +772,7 @@ def site_programs() -> list[tuple[list[tuple], dict[str, Any]]]:
     arg_candidates = [M, P("x"), L("a"), L(1), L(None), P("l"), P("s"), L(0), L("")]
     arity = {"default": [0, 1], "size": [0], "first": [0], "last": [0], "join": [0, 1], "upcase": [0], "downcase": [0],
              "append": [1], "prepend": [1], "escape": [0], "plus": [1], "minus": [1], "times": [1], "where": [1, 2],
-             "map": [1], "sort": [0, 1], "concat": [1], "compact": [0, 1], "uniq": [0], "sum": [0, 1], "slice": [1, 2],
+             "map": [1], "sort": [0, 1], "concat": [1], "compact": [0, 1], "uniq": [0, 1], "sum": [0, 1], "slice": [1, 2],
              "split": [1], "reverse": [0]}
     for f in FILTERS:
         for left in left_candidates:
@@ -900,6 +900,13 @@ def directed_programs() -> list[tuple[list[tuple], dict[str, Any]]]:
         progs.append([("assign", "v", ("arr", lit)), ("out", ("filter", ("filter", P("v"), "uniq", [], []), "size", [], [])),
                       ("out", ("filter", ("filter", P("v"), "compact", [], []), "size", [], []))])
         progs.append([("assign", "v", ("arr", lit)), ("case", L(None), [([P("v", 0), P("v", 1)], T_)], F_)])
+    # (c) every modelled filter on a missing left value, and what the result is afterwards
+    minimal = {"append": [L("x")], "prepend": [L("x")], "plus": [L(1)], "minus": [L(1)], "times": [L(2)], "where": [L("a")],
+               "map": [L("a")], "concat": [P("l")], "slice": [L(0)], "split": [L(",")]}
+    for f in FILTERS:
+        e = ("filter", M, f, minimal.get(f, []), [])
+        progs.append([("text", "["), ("out", ("filter", e, "default", [L("nil-or-empty")], [])), ("text", "]")])
+        progs.append([("assign", "v", e), ("if", ("cmp", "eq", P("v"), L(None)), T_, F_), ("out", ("filter", P("v"), "size", [], []))])
     return [(p, DDATA) for p in progs]
 
 
@@ -1088,7 +1095,7 @@ def kernel_cases(r: Any, thorough: bool) -> list[dict[str, Any]]:
         # filters, called exactly as Filter.evaluate does (TypeError -> LiquidTypeError)
         arity = {"default": [0, 1], "size": [0], "first": [0], "last": [0], "join": [0, 1], "upcase": [0], "downcase": [0],
                  "append": [1], "prepend": [1], "escape": [0], "plus": [1], "minus": [1], "times": [1], "where": [1, 2],
-                 "map": [1], "sort": [0, 1], "concat": [1], "compact": [0, 1], "uniq": [0], "sum": [0, 1], "slice": [1, 2],
+                 "map": [1], "sort": [0, 1], "concat": [1], "compact": [0, 1], "uniq": [0, 1], "sum": [0, 1], "slice": [1, 2],
                  "split": [1], "reverse": [0]}
         argpool = [None, True, False, 0, 1, -1, 2, "", "a", "c", ",", "2", [1], [], {"a": 1}, undef(pol)]
         for f in FILTERS:
@@ -1322,7 +1329,11 @@ def beyond_directed() -> list[tuple]:
         int index, a str key, nil): bracketed path segments over lists, hashes
         and strings, nested, through every boundary, and where a number or a
         key is expected (comparisons, case, range bounds, for limit / offset,
-        filter arguments, tablerow, cycle, translate count)."""
+        filter arguments, tablerow, cycle, translate count);
+    (e) the round-8 reviewer observations: forloop.parentloop of a for inside a
+        block inside a for of a base template rendered through extends; macros
+        calling macros and themselves; json / uniq: key / compact: key with a
+        missing variable behaving as with nil under the default policy."""
     out: list[tuple] = []
     base = {"l": [1, 2, 3, 4], "n": 2, "s": "ab", "who": "W",
             "ld": [{"a": 1, "c": "x"}, {"a": 2, "c": "y"}, {"a": 1, "c": "z"}], "d": {"k": 2}}
@@ -1479,6 +1490,34 @@ def beyond_directed() -> list[tuple]:
                 "{{ arr[i9] | default: 'd' }}|{{ h[kz] | default: 'd' }}", "{% render 'p', h: h, arr: arr, k: kz, i: i9 %}",
                 "{% if arr[i9] %}T{% else %}F{% endif %}|{% if h[kz] == nil %}N{% endif %}"):
         out.append((src, dparts, dict(dd), False, None))
+    # (e) round-8 reviewer observations on the clean tree
+    eparts = {"base": "{% for a in (1..2) %}{% block b %}{% for c in (1..2) %}{{ forloop.parentloop.index }}.{{ forloop.index }} "
+                      "{% endfor %}{% endblock %}{% endfor %}",
+              "mid": "{% extends 'base' %}"}
+    # a for inside a block inside a for of the base template keeps its parentloop through {% extends %}
+    out.append(("{% extends 'base' %}", eparts, {}, True, "1.1 1.2 2.1 2.2 "))
+    out.append(("{% extends 'mid' %}", eparts, {}, True, "1.1 1.2 2.1 2.2 "))
+    out.append(("{% extends 'base' %}{% block b %}{% for c in (1..2) %}{{ forloop.parentloop.index }}-{{ forloop.index }} {% endfor %}{% endblock %}",
+                eparts, {}, True, "1-1 1-2 2-1 2-2 "))
+    out.append((eparts["base"], eparts, {}, True, "1.1 1.2 2.1 2.2 "))
+    # a macro may call another macro, or itself
+    out.append(("{% macro cell, v %}<td>{{ v }}</td>{% endmacro %}{% macro row, a, b %}<tr>{% call cell, a %}{% call cell, b %}</tr>{% endmacro %}"
+                "{% call row, 1, 2 %}", {}, {}, True, "<tr><td>1</td><td>2</td></tr>"))
+    out.append(("{% macro row, a %}<tr>{% call cell, a %}</tr>{% endmacro %}{% macro cell, v %}<td>{{ v }}</td>{% endmacro %}{% call row, n %}",
+                {}, {"n": 7}, True, "<tr><td>7</td></tr>"))
+    out.append(("{% macro f, n %}{{ n }}{% if n > 0 %}{% assign m = n | minus: 1 %}{% call f, m %}{% endif %}{% endmacro %}{% call f, 3 %}",
+                {}, {}, True, "3210"))
+    out.append(("{% macro f %}x{% call f %}{% endmacro %}{% call f %}", {}, {}, True, None))        # bounded: ContextDepthError
+    out.append(("{% macro row %}{% call nosuch %}{% endmacro %}{% call row %}", {}, {}, False, None))   # a macro that does not exist IS missing
+    # under the default policy a missing variable behaves as nil: json, and the key argument of uniq / compact
+    jd = {"a": 1, "arr": ["a", "b", "a", None], "ld": [{"k": 1}, {"k": None}]}
+    for miss, nil_, only in (("{{ m | json }}", "{{ nil | json }}", "D"), ("{{ a, m | json }}", "{{ a, nil | json }}", "D"),
+                             ("{{ d.zz | json }}", "{{ nil | json }}", "D"), ("{% assign v = a, m %}{{ v | json: 1 }}", "{% assign v = a, nil %}{{ v | json: 1 }}", "D"),
+                             ("{{ arr | uniq: m | join: ',' }}", "{{ arr | uniq: nil | join: ',' }}", "DSF"),
+                             ("{{ arr | compact: m | join: ',' }}", "{{ arr | compact: nil | join: ',' }}", "DSF"),
+                             ("{{ arr | uniq: d.zz | size }}", "{{ arr | uniq | size }}", "DSF"),
+                             ("{{ ld | compact: m | size }}|{{ ld | uniq: m | size }}|{{ ld | sum: m }}", "{{ ld | compact | size }}|{{ ld | uniq | size }}|{{ ld | sum }}", "DSF")):
+        out.append((miss, {}, dict(jd), False, nil_, {"_only": only}))
     # environment and template globals that hold None
     G = "{{ g }}|{{ g | default: 'd' }}|{% if g == nil %}N{% else %}V{% endif %}|{{ g | size }}|{{ g | upcase }}"
     for opts in ({"env_globals": {"g": None}}, {"tmpl_globals": {"g": None}}, {"env_globals": {"g": 1}, "tmpl_globals": {"g": None}},
@@ -1716,6 +1755,8 @@ def main(chk: C.Check, build: C.Build) -> None:
     def must(k: dict[str, Any]) -> bool:
         # Python == between an undefined and nil / false, in every policy: never sampled away
         a = k["replay"]["args"]
+        if k["replay"]["kernel"].startswith("filter:") and a.startswith(("(Undefined(", "(StrictUndefined(")) and a.endswith(", ())"):
+            return True                   # every filter on an undefined left value, without arguments
         return k["replay"]["kernel"] in ("_eq", "_contains") and "Undefined(" in a and ("None" in a or "False" in a)
     kitems += [k for k in kall if must(k) or r.random() < (0.3 if thorough else 0.03)]
 
@@ -1735,7 +1776,8 @@ def main(chk: C.Check, build: C.Build) -> None:
     # directed sources beyond the model, never sampled, sync and async
     nbd = 0
     for src, parts, data, complete, equiv, *rest in beyond_directed():
-        opts = rest[0] if rest else {}
+        opts = dict(rest[0]) if rest else {}
+        only = opts.pop("_only", "DSFP")          # the policies whose outcome must equal the equivalent source's
         both = []
         for asy in (False, True):
             outs = {pol: render_env(src, parts, data, pol, asy, **opts) for pol in POLS}
@@ -1744,7 +1786,7 @@ def main(chk: C.Check, build: C.Build) -> None:
             nbeyond += 1
             nbd += 1
             if equiv is not None:
-                for pol in POLS:
+                for pol in only:
                     o2 = ("ok", equiv) if "{" not in equiv else render_env(equiv, parts, data, pol, asy, **opts)
                     if o2 != outs[pol]:
                         nm = {"D": "Undefined", "S": "StrictUndefined", "F": "FalsyStrictUndefined", "P": "probe"}[pol]
